@@ -9,7 +9,7 @@ CLAIMS = {
         "design_ref": "DESIGN.md section 4 C01",
     },
     "C02": {
-        "text": "Partial. Discharged for all inputs: viewBox->OT-SVG affine (y down, baseline at 0, centred, user transform), <use> creation (href, x/y iff non-zero, residual matrix; lemma L-use: M o T(x,y) = reuse affine), gradient coordinate mapping (linear: three points; radial: centres mapped, radii scaled by |s| and never negative, non-uniform affines rejected). Bounded: generated source sets built as picosvg/picosvgz fonts; exactly one element glyph<ID> in the covering document, rendered by a small SVG evaluator and compared by sampling with the source specification; document structure (sorted disjoint ranges, unique ids, resolving hrefs, no cross-glyph references).",
+        "text": "Partial. Discharged for all inputs: viewBox->OT-SVG affine (y down, baseline at 0, centred, user transform), <use> creation (href, x/y iff non-zero, residual matrix; lemma L-use: M o T(x,y) = reuse affine), gradient coordinate mapping (linear: three points; radial: centres mapped, radii scaled by |s| and never negative, non-uniform affines rejected). Bounded: generated source sets built as picosvg/picosvgz fonts; exactly one element glyph<ID> in the covering document, rendered by a small SVG evaluator and compared by sampling with the source specification; document structure (sorted disjoint ranges, unique ids, resolving hrefs, no cross-glyph references). Also discharged: _apply_paint (a transform paint's own affine is applied before the pending one; gradients get the pending transform conjugated by the viewBox map; unsupported paints raise), _apply_solid_paint (fill omitted exactly for plain black, opacity iff translucent); finite scope: _apply_gradient_paint (cache invariant - every cached id was defined with its key - and the fill refers to the normal form of this paint, gradients abstracted to ghost identities).",
         "note": "lxml document assembly, reuse grouping and glyph-order reshuffle are bounded-tier only; _ntos/_svg_matrix string formatting abstracted as functions of the number/affine; SVG rendering semantics as implemented in contracts/e2e.py; A-real.",
         "design_ref": "DESIGN.md section 4 C02",
     },
@@ -55,14 +55,14 @@ CLAIMS = {
     },
     "C08": {
         "text": "Bounded only (no contract within reach can decide byte-for-byte determinism of a process): with SOURCE_DATE_EPOCH fixed the real CLI is run twice on generated source sets, varying exactly one of argv order, PYTHONHASHSEED, build-directory location, working directory, ninja parallelism, and the output bytes must be identical. The palette's independence of set iteration order follows from the finite-scope functional postcondition of uniq_sort_cpal_colors (C15).",
-        "note": "process-level runs with a stated bound (5 pairs quick / 60 thorough); ninja scheduling beyond -j1 vs default, file-system ordering and fontTools' SOURCE_DATE_EPOCH handling are exercised but not modelled.",
+        "note": "process-level runs with a stated bound (8 stratified pairs quick / 60 thorough; plus the maximum_color runs of C12 under other hash seeds); ninja scheduling beyond -j1 vs default, file-system ordering and fontTools' SOURCE_DATE_EPOCH handling are exercised but not modelled.",
         "design_ref": "DESIGN.md B.1, section 4 C08",
         "category": "other",
         "technique": "bounded native stand-in (the real CLI run twice under one varied factor, byte comparison); finite-scope symbolic postcondition for the palette order; no deductive claim",
     },
     "C12": {
         "text": "Bounded only: the real maximum_color pipeline (ninja, offline) is run on generated COLRv1 / COLRv0 / OT-SVG fonts; the written font must keep the character map and advances, keep the original colour table and add the complementary one (and CBDT/CBLC with --bitmaps, one bitmap per colour glyph), keep or strip glyph names as requested, and for every colour glyph the COLR and SVG tables must paint the same picture as the input for the glyph reached from the same codepoint (sampling with the COLR and SVG evaluators of contracts/e2e.py).",
-        "note": "4 pipeline runs quick / 60 thorough; glue_together's bookkeeping loops are not under a deductive contract; GSUB/GPOS meaning after the reorder is covered by C11's contracts, not here.",
+        "note": "8 stratified pipeline runs quick / 80 thorough (COLRv1/COLRv0/OT-SVG inputs, kern+mark features compared by codepoint, metrics variety, shared shapes, translucent foreground colour, --bitmaps, other hash seeds) plus glue_together._copy_cbdt on fonts with interrupted glyph-id runs; glue_together's bookkeeping loops are not under a deductive contract.",
         "design_ref": "DESIGN.md B.1, section 4 C12",
         "category": "other",
         "technique": "bounded native stand-in (real maximum_color pipeline on generated fonts, picture comparison by sampling); no deductive claim",
@@ -79,17 +79,17 @@ CLAIMS = {
         "category": "other",
     },
     "C13": {
-        "text": "Partial. Discharged for all inputs: every transform paint's gettransform equals the COLR specification's affine; font->viewBox map is the inverse of the C01 placement; _apply_transform conjugates by the font->viewBox map and resets the transform; palette entry -> colour (foreground -> currentColor, CPAL alpha x paint alpha, index kept iff multi-palette, out of range raises); uniform/residual split of radial gradients. Bounded: generated COLRv1 fonts converted by colr_to_svg and compared by sampling against a COLR evaluator.",
+        "text": "Partial. Discharged for all inputs: every transform paint's gettransform equals the COLR specification's affine; font->viewBox map is the inverse of the C01 placement; _apply_transform conjugates by the font->viewBox map and resets the transform; palette entry -> colour (foreground -> currentColor, CPAL alpha x paint alpha, index kept iff multi-palette, out of range raises); uniform/residual split of radial gradients. Bounded: generated COLRv1 fonts converted by colr_to_svg and compared by sampling against a COLR evaluator. Also discharged per paint format: _colr_v1_paint_to_svg transform accounting (written o passed-down == pending o own, hence by induction over the acyclic paint graph every leaf is drawn through the product of the transforms on its path, once), group opacity iff SRC_IN over a black solid and otherwise a warning; finite scope: layer runs, _apply_gradient_ot_paint (linear: all three points through pending-then-viewBox; radial: circles through the uniform part, residual as gradientTransform; colour line kept), _apply_solid_ot_paint.",
         "note": "lxml document assembly, SVGPathPen and fontTools glyph drawing are bounded-tier only; trigonometric functions uninterpreted; SVG renderer semantics assumed as implemented in contracts/e2e.py.",
         "design_ref": "DESIGN.md section 4 C13",
     },
     "C14": {
-        "text": "ppem, pixel advance, horizontal centring, vertical placement within one pixel (two when nudged; for em <= 2*upem), the int8 nudge, format-17 record size and the contiguous offset table (loop invariant) are discharged for all inputs from the current source.",
+        "text": "ppem, pixel advance, horizontal centring, vertical placement within one pixel (two when nudged; for em <= 2*upem), the int8 nudge, format-17 record size and the contiguous offset table (loop invariant) are discharged for all inputs from the current source. Finite scope (1-2 glyphs): make_sbix_table / _make_cbdt_strike raise when bitmap heights differ and otherwise give the strike the ppem of every glyph in it.",
         "note": "A-real; precondition bitmap height == bitmap_resolution (what the driver's resvg step produces); em > 2*upem is only covered by the general clause; fontTools CBDT/sbix writers and PIL's PNG size are assumed.",
         "design_ref": "DESIGN.md section 4 C14",
     },
     "C15": {
-        "text": "Index lookup (first match, 0xFFFF for currentColor, error when absent), opaque(), the v1 alpha split in PaintSolid.to_ufo_paint are discharged for all inputs. The slot assignment of uniq_sort_cpal_colors is decided by exhaustive symbolic execution of the real loops in a finite scope (<= 3 colours, indices 0..5, channels unconstrained) -- labelled bounded, not counted as proved.",
+        "text": "Index lookup (first match, 0xFFFF for currentColor, error when absent), opaque(), the v1 alpha split in PaintSolid.to_ufo_paint are discharged for all inputs. The slot assignment of uniq_sort_cpal_colors is decided by exhaustive symbolic execution of the real loops in a finite scope (<= 3 colours, indices 0..5, channels unconstrained) -- labelled bounded, not counted as proved. Also discharged: _color_stop (every opacity multiplies in, colour and palette index kept); finite scope: Color.fromstring on representative texts (caller's alpha multiplies the text's alpha, illegal hex lengths and unknown forms raise).",
         "note": "A-real; sorted() modelled by permutation/order/stability axioms; Color.fromstring is bounded-tier only; ufo2ft CPAL writer assumed.",
         "design_ref": "DESIGN.md section 4 C15",
     },
